@@ -27,11 +27,13 @@ Definition frun (minimize : bool) (mult : float) (iters : nat) (lbl : option nat
 '''
 
 
-def run_real_fit(xr, iters_loop, iters_arg, scores, metric, early_stop, mult, return_best, ctor_iters=None):
-    """returns dict(w=(i,m,bw), m=, sqrtm=, bw=, best_iter=, evals=, solves=, crashed=)"""
+def run_real_fit(xr, iters_loop, iters_arg, scores, metric, early_stop, mult, return_best, ctor_iters=None, ctor_metric=None):
+    """returns dict(w=(i,m,bw), m=, sqrtm=, bw=, best_iter=, evals=, solves=, crashed=).
+    `metric` is the metric in force during the fit; when ctor_metric is given the object is CONSTRUCTED with ctor_metric and
+    `metric` is passed to fit(tuning_metric=...) (the documented override), otherwise it is given to the constructor only."""
     torch.manual_seed(0)
     ctor = iters_loop if ctor_iters is None else ctor_iters
-    m = xr.RealRFM(kernel='l2', bandwidth=1.0, exponent=1.0, device='cpu', iters=ctor, tuning_metric=metric, verbose=False)
+    m = xr.RealRFM(kernel='l2', bandwidth=1.0, exponent=1.0, device='cpu', iters=ctor, tuning_metric=(metric if ctor_metric is None else ctor_metric), verbose=False)
     st = dict(solves=0, mver=0, evals=0)
     script = list(scores)
 
@@ -66,7 +68,7 @@ def run_real_fit(xr, iters_loop, iters_arg, scores, metric, early_stop, mult, re
     out = dict(crashed=None)
     try:
         m.fit((X, y), (X, y), iters=iters_arg, reg=1e-3, return_best_params=return_best, early_stop_rfm=early_stop,
-              early_stop_multiplier=mult, verbose=False)
+              early_stop_multiplier=mult, verbose=False, **({} if ctor_metric is None else dict(tuning_metric=metric)))
     except Exception as e:      # restore with best_alphas None etc.
         out['crashed'] = repr(e)
         out['evals'] = st['evals']
